@@ -22,6 +22,13 @@ different input: `Feed(…, true)`, covered by C02).
   * `multibyte_law_fails_pinned`, `gbk_ni_lost_pinned` – the pinned call (`atEOF = true`) breaks the law `short` for every
     multi-byte character; concrete loss: GBK `C4 E3` ("你") produces no event at all
   * `paste_bracket`, `focus_reports`
+
+Why no other parser interferes (Lemmas/TextParse.lean): `parseRune` runs first and completes on a whole character; on a
+non-empty proper prefix of a character (≤ 3 bytes, first byte ≥ 0x80) it answers "partial", `parseFunctionKey` finds no
+match because no table sequence starts with an 8-bit byte (`keysAscii`), `parseFocus` and `parseClipboard` reject, and the
+two mouse parsers — which do accept the 8-bit CSI 0x9B as introducer, a byte that is a lead byte in GBK/Big5/Shift_JIS
+and a continuation byte in UTF-8 — cannot complete on fewer than five bytes (`x11Body_short`, `sgrRun_short`): the scan
+waits, and when the rest of the character arrives `parseRune` wins.
 -/
 namespace Tcell.Props.C11
 open Tcell Tcell.Model Tcell.Lemmas.Text
